@@ -94,3 +94,15 @@ claimed["C06"] = dict(
     text="For every enumerated entry set, order and history the index file decodes to exactly the model's entries in strictly ascending byte order without duplicates, a fresh load yields the same, and for every query name GetEntry finds it iff tracked, IsRegisteredAsDirectory holds iff some tracked path lies beneath '<name>/', GetEntriesByDirectory returns exactly those paths; rm/restore/add <name> succeed or refuse accordingly.",
     note="Trusted: the harness's index decoder and prefix predicates. Entry sets above size k and names outside the universe are not covered.",
 )
+claimed["C12"] = dict(
+    category="model_checking",
+    technique="exhaustive enumeration of all 105 quarter-hour UTC offsets -12:00..+14:00: in-module (offsets x 8 instants; offsets x 8 names x 3 e-mails x 12 messages through Sign.String / NewObject / NewCommit) and CLI (commit under a generated TZif file per offset; names x messages at four offsets), read back by an independent decoder, cat-file -p and log",
+    text="For every enumerated offset, instant, name, e-mail and message: commit exits 0; the stored author and committer lines equal 'Name <email> <secs> +HHMM|-HHMM' with HH:MM the magnitude of the offset; NewCommit / cat-file -p / log give back the same name, e-mail, instant, offset and message text.",
+    note="Trusted: gitfmt, the log parser, the TZif generator (checked by the stored offset itself). Names, e-mails and messages outside the enumerated families are not covered.",
+)
+claimed["C19"] = dict(
+    category="model_checking",
+    technique="exhaustive single-edit neighbourhood of every file Goit wrote in a corpus repository (every truncation, single-byte deletion, single-byte substitution; object files raw and at the level of their inflated content, re-deflated), every ordered swap of two object files, and all token strings up to length n for each text decoder; after each mutant every exported loader is called in-module under a panic guard, a 20 s watchdog and an address-space limit; read-only CLI commands on every truncation",
+    text="For every enumerated mutant no loader panicked, hung or exhausted memory, no command exited with a status other than 0 or 1, and GetObject never returned err == nil with a kind or content different from the object of the requested id (damaged, truncated, bit-flipped or swapped files are reported as errors).",
+    note="Trusted: the harness's guards. 'Arbitrary byte strings (coverage-guided)' is outside this family: bytes far from any valid file and outside the token grammars are not covered.",
+)
